@@ -118,6 +118,82 @@ def successors(descs, all_prev, npool1, npool2, with_mp=True):
     return out
 
 
+def wellformed(t) -> bool:
+    """document well-formedness of a whole term (every mu positive, no redundant or ill-headed pending substitution)"""
+    k = t[0]
+    if k in ('evar', 'svar', 'sym'):
+        return True
+    if k == 'mv':
+        return not (set(t[6]) & set(t[2]))
+    if k in ('imp', 'app'):
+        return wellformed(t[1]) and wellformed(t[2])
+    if k == 'ex':
+        return wellformed(t[2])
+    if k == 'mu':
+        return rm.positive(t[2], t[1]) and wellformed(t[2])
+    if k in ('esub', 'ssub'):
+        return t[1][0] in ('mv', 'esub', 'ssub') and not rm.redundant(t) and wellformed(t[1]) and wellformed(t[3])
+    return False
+
+
+def ref_conclusion(d, lib):
+    """the conclusion of the expression according to the *documented* rules, or raises rm.Reject / rm.Unspecified /
+    ValueError when some step is not allowed by them (ill-formed plug, violated constraint, capture, ...)"""
+    from . import bridge
+    k = d[0]
+    if k == 'prop1':
+        return rm.PROP1
+    if k == 'prop2':
+        return rm.PROP2
+    if k == 'prop3':
+        return rm.PROP3
+    if k == 'exists_quantifier':
+        return rm.QUANTIFIER
+    if k in ('ax', 'lemma', 'lemma2'):
+        return bridge.expand(build(d, lib).conc) if k != 'lemma2' else None
+    if k == 'mp':
+        a, b = ref_conclusion(d[1], lib), ref_conclusion(d[2], lib)
+        if a is None or b is None:
+            return None
+        if a[0] != 'imp' or a[1] != b:
+            raise rm.Reject('MP_MISMATCH')
+        return a[2]
+    if k == 'gen':
+        a = ref_conclusion(d[1], lib)
+        if a is None:
+            return None
+        if a[0] != 'imp' or not rm.e_fresh(a[2], d[2]):
+            raise rm.Reject('GEN_NOT_FRESH')
+        return ('imp', ('ex', d[2], a[1]), a[2])
+    if k in ('inst', 'dinst'):
+        a = ref_conclusion(d[1], lib)
+        if a is None:
+            return None
+        PL = pool()
+        ids = [kk for kk, _ in d[2]]
+        plugs = [bridge.expand(PL[i]) for _, i in d[2]]
+        for pl in plugs:
+            if not wellformed(pl):
+                raise rm.Reject('ILLFORMED_PLUG')
+        r = rm.instantiate(a, ids, plugs, rm.Ctx('drop_mv'))
+        if not wellformed(r):
+            raise rm.Reject('ILLFORMED_RESULT')
+        return r
+    return None
+
+
+def python_side_ok(d, lib) -> bool:
+    """does the documented calculus allow this expression? (False = the toolkit accepted something the rules forbid:
+    the generator's missing well-formedness / constraint / capture checks, i.e. the known findings)"""
+    try:
+        ref_conclusion(d, lib)
+        return True
+    except (rm.Reject, rm.Unspecified):
+        return False
+    except Exception:  # noqa: BLE001
+        return True
+
+
 def judge_chunk(args):
     descs, light = args
     from . import bridge
@@ -160,7 +236,7 @@ def judge_chunk(args):
                 good = False
                 r2 = rm.verify(g, c, p)
                 reason = r2[1] if r2[0] == 'REJECT' else r2[0]
-                out['viol'].append(({'kind': 'checker_rejects', 'top': d[0], 'reason': reason}, _jd(d),
+                out['viol'].append(({'kind': 'checker_rejects', 'top': d[0], 'reason': reason, 'allowed_by_documented_rules': python_side_ok(d, lib)}, _jd(d),
                                     f'checker rejects the serialisation (optimize={opt}) of {show_desc(d)} concluding {conc}; '
                                     f'reference machine: {reason}; files {g.hex()}|{c.hex()}|{p.hex()[:200]}'))
                 break
